@@ -102,11 +102,11 @@ pub fn cfgs_c03() -> Vec<SrvCfg> {
     v.push(base("c03-announce", a, p));
     // --- announce_signed_peer
     let mut a = vec![Act::GetSigned { src: 0, ih: 0 }, Act::GetSigned { src: 2, ih: 0 }, Act::GetPeers { src: 0, ih: 0 }];
-    for dt in [0i64, 44, -44, 46, -46] {
+    for dt in [0i64, 44_000, -44_000, 46_000, -46_000, 45_900, -45_200] {
         a.push(Act::AnnounceSigned { src: 0, ih: 0, key: 0, dt, sig_ok: true, tok: Tok::Fresh });
     }
     a.push(Act::AnnounceSigned { src: 0, ih: 0, key: 0, dt: 0, sig_ok: false, tok: Tok::Fresh });
-    a.push(Act::AnnounceSigned { src: 2, ih: 0, key: 1, dt: 1, sig_ok: true, tok: Tok::Fresh });
+    a.push(Act::AnnounceSigned { src: 2, ih: 0, key: 1, dt: 1_000, sig_ok: true, tok: Tok::Fresh });
     for t in token_variants() {
         a.push(Act::AnnounceSigned { src: 0, ih: 0, key: 0, dt: 0, sig_ok: true, tok: t });
     }
@@ -453,7 +453,7 @@ pub fn def_c03() -> CheckDef {
         info: |tier| CheckInfo {
             id: "C03",
             level: "model_checking",
-            rule: format!("Explicit-state BFS (depth {}) over request histories against one real Server (clone per state), five sub-alphabets (immutable, mutable, announce_peer, announce_signed_peer, request filter) of 9-25 actions each: token-yielding reads from 3 source addresses (2 IPs), writes with valid/oversize/wrong-hash/bad-signature/wrong-target/oversize-salt payloads, timestamps at 0/+-44/+-46 s, tokens fresh / issued to another IP / from another server / empty / one byte mutated / older, clock steps 1 s, 4m59s, 5m01s. Every transition goes independent encoder -> real decoder -> real Server::handle_request -> real encoder -> independent reader and is compared with a reference model (accepted-write stores + issued tokens). States = distinct (real server snapshot, clock, rng cursor, client tokens, model).", if tier.is_quick() { 6 } else { 8 }),
+            rule: format!("Explicit-state BFS (depth {}) over request histories against one real Server (clone per state), five sub-alphabets (immutable, mutable, announce_peer, announce_signed_peer, request filter) of 9-25 actions each: token-yielding reads from 3 source addresses (2 IPs), writes with valid/oversize/wrong-hash/bad-signature/wrong-target/oversize-salt payloads, timestamps at 0/+-44/+-46/+45.9/-45.2 s, tokens fresh / issued to another IP / from another server / empty / one byte mutated / older, clock steps 1 s, 4m59s, 5m01s. Every transition goes independent encoder -> real decoder -> real Server::handle_request -> real encoder -> independent reader and is compared with a reference model (accepted-write stores + issued tokens). States = distinct (real server snapshot, clock, rng cursor, client tokens, model).", if tier.is_quick() { 6 } else { 8 }),
             assumptions: vec![
                 "token freshness oracle: must accept up to 5 min after issue to the same IP; must reject tokens never issued to that IP; in between, either answer (refined in C15)".into(),
                 "store capacities are set to 8/4/4 instead of the defaults (same code path, smaller tables)".into(),
